@@ -195,18 +195,18 @@ class Run:
                     # that compare the real function with an executable transcription of the spec function. A failing
                     # harness is a violation with a counterexample; passing harnesses leave the unit undecided.
                     found = False
+                    self.log("  bounded stand-in: Kani witness harnesses %s (in parallel) ..." % ", ".join(w["harnesses"]))
+                    res, logp = kani_unit.run_harnesses(REPO, w["crate"], list(w["harnesses"]), timeout_s=w.get("timeout", 900),
+                                                        jobs=len(w["harnesses"]), tag="wit_" + unit)
                     for hname in w["harnesses"]:
-                        self.log("  bounded stand-in: Kani witness harness %s ..." % hname)
-                        res, logp = kani_unit.run_harnesses(REPO, w["crate"], [hname], timeout_s=w.get("timeout", 900), jobs=1, tag="wit_" + hname)
                         wr = res[hname]
-                        if wr.status == "failed":
+                        self.log("    %s: %s %s" % (hname, wr.status, wr.reason))
+                        if wr.status == "failed" and not found:
                             fc = wr.failed_checks[0]
                             cex, reproduced = self.kani_counterexample(w["crate"], w["module"], hname, w.get("timeout", 900))
                             cex.update(engine="kani", failed_checks=wr.failed_checks, note="Verus unit %s undecided (%s); bounded witness harness failed" % (unit, why))
                             self.report("%s::%s::%s" % (w["crate"], hname, _san(fc["description"])[:60]), cex, reproduced)
                             found = True
-                            break
-                        self.log("    %s: %s %s" % (hname, wr.status, wr.reason))
                     if found:
                         continue
                 self.undecided.append("%s: %s" % (unit, why))
